@@ -35,31 +35,83 @@ theorem tryConsumeName_frag {rest2 : List Nat} (h : parenOk (0x3F :: rest2) = tr
       · rename_i heq; cases heq; exact absurd rfl hy
       · rfl
 
-theorem scanLoop_frag (e : Bool) (fl : Flags) : ∀ (fuel : Nat) (inp : List Nat) (sc : Scan),
-    fragCore e inp = true → inp.length < fuel → sc.locs = [] →
-    ∃ sc', scanLoop fl fuel inp sc = .ok sc' ∧ sc'.locs = [] ∧ sc'.named = sc.named := by
+theorem capOpens_nil : capOpens [] = 0 := capGo_nil false
+
+theorem capOpens_bs_end : capOpens [0x5C] = 0 := by
+  unfold capOpens
+  rw [capGo] <;> simp [capGo_nil]
+
+/-- The pre-scan's `skipBracket` is the scanners' in-class mode. -/
+theorem skipBracket_scan (e k : Bool) (rest : List Nat) :
+    capGo true rest = capGo false (skipBracket rest) ∧
+    (fragGo e k true rest = true → fragGo e k false (skipBracket rest) = true) := by
+  fun_induction skipBracket rest with
+  | case1 => exact ⟨by rw [capGo_nil, capGo_nil], fun _ => by rw [fragGo]⟩
+  | case2 c hc =>
+    have : c = 0x5C := by simpa using hc
+    subst this
+    refine ⟨?_, fun _ => by rw [fragGo]⟩
+    rw [capGo_nil, capGo] <;> simp [capGo_nil]
+  | case3 c hc x r ih =>
+    have : c = 0x5C := by simpa using hc
+    subst this
+    refine ⟨by rw [capGo_esc]; exact ih.1, fun h => ?_⟩
+    rw [fragGo_esc_in, Bool.and_eq_true] at h
+    exact ih.2 h.2
+  | case4 c rest h1 h2 =>
+    have hc : c = 0x5D := by simpa using h2
+    subst hc
+    exact ⟨capGo_close rest, fun h => by rwa [fragGo_close] at h⟩
+  | case5 c rest h1 h2 ih =>
+    have hc1 : c ≠ 0x5C := by simpa using h1
+    have hc2 : c ≠ 0x5D := by simpa using h2
+    exact ⟨by rw [capGo_in rest hc1 hc2]; exact ih.1, fun h => ih.2 (by rwa [fragGo_in e k rest hc1 hc2] at h)⟩
+
+/-- On the fragment the pre-scan finds no name and counts `capOpens` (saturating at
+`MAX_CAPTURE_GROUPS`). -/
+theorem scanLoop_frag (e k : Bool) (fl : Flags) (hkv : k = true → fl.unicodeSets = false) :
+    ∀ (fuel : Nat) (inp : List Nat) (sc : Scan),
+    fragCore e k inp = true → inp.length < fuel → sc.locs = [] → sc.gmax ≤ Gen.MAX_CAPTURE_GROUPS →
+    ∃ sc', scanLoop fl fuel inp sc = .ok sc' ∧ sc'.locs = [] ∧ sc'.named = sc.named ∧
+      sc'.gmax = min (sc.gmax + capOpens inp) Gen.MAX_CAPTURE_GROUPS := by
   intro fuel
   induction fuel with
   | zero => intro inp sc _ hf; omega
   | succ fuel ih =>
-    intro inp sc hfr hf hl
+    intro inp sc hfr hf hl hgm
     unfold scanLoop
     rcases inp with _ | ⟨c, rest⟩
-    · exact ⟨sc, rfl, hl, rfl⟩
+    · exact ⟨sc, rfl, hl, rfl, by rw [capOpens_nil]; omega⟩
     · simp only [List.length_cons] at hf
       by_cases hc1 : c = 0x5C
       · -- an escape: the next character is skipped
         subst hc1
         simp only [beq_self_eq_true, if_true]
         rcases rest with _ | ⟨x, r⟩
-        · exact ih [] sc rfl (by simp; omega) hl
+        · rw [capOpens_bs_end]
+          exact ih [] sc rfl (by simp; omega) hl hgm
         · rw [fragCore_esc] at hfr
           simp only [Bool.and_eq_true] at hfr
           simp only [List.length_cons] at hf
-          exact ih r sc hfr.2 (by omega) hl
-      obtain ⟨hc2, hpo⟩ := fragCore_head hc1 hfr
-      have hfr' := fragCore_tail hc1 hfr
+          rw [capOpens_esc]
+          exact ih r sc hfr.2 (by omega) hl hgm
       have e1 : (c == 0x5C) = false := by simp [hc1]
+      by_cases hc2 : c = 0x5B
+      · -- a class: skipped up to the closing bracket
+        subst hc2
+        simp only [e1, beq_self_eq_true, Bool.false_eq_true, if_false, if_true]
+        unfold fragCore at hfr
+        rw [fragGo_open, Bool.and_eq_true] at hfr
+        rw [hkv hfr.1]
+        simp only [Bool.false_eq_true, if_false]
+        obtain ⟨hs1, hs2⟩ := skipBracket_scan e k rest
+        have hlen := skipBracket_length rest
+        have hcap : capOpens (0x5B :: rest) = capOpens (skipBracket rest) := by
+          unfold capOpens; rw [capGo_open]; exact hs1
+        rw [hcap]
+        exact ih (skipBracket rest) sc (hs2 hfr.2) (by omega) hl hgm
+      have hpo := fragCore_head hc1 hc2 hfr
+      have hfr' := fragCore_tail hc1 hc2 hfr
       have e2 : (c == 0x5B) = false := by simp [hc2]
       simp only [e1, e2, Bool.false_eq_true, if_false]
       by_cases hp : c = 0x28
@@ -71,36 +123,62 @@ theorem scanLoop_frag (e : Bool) (fl : Flags) : ∀ (fuel : Nat) (inp : List Nat
           obtain ⟨rest3, h3, hs3⟩ := tryConsumeName_frag hpo
           simp only [h3]
           simp only [List.length_cons] at hf
-          have hfr2 : fragCore e rest2 = true := fragCore_tail (by decide) hfr'
+          have hfr2 : fragCore e k rest2 = true := fragCore_tail (by decide) (by decide) hfr'
+          rw [capOpens_q]
           rcases hs3 with rfl | rfl
-          · exact ih rest3 _ hfr2 (by omega) hl
-          · exact ih rest3 _ (fragCore_tail (by decide) hfr2) (by simp only [List.length_cons] at hf; omega) hl
+          · exact ih rest3 _ hfr2 (by omega) hl hgm
+          · rw [capOpens_plain _ (by decide) (by decide) (by decide)]
+            exact ih rest3 _ (fragCore_tail (by decide) (by decide) hfr2) (by simp only [List.length_cons] at hf; omega) hl hgm
         · have hne : ∀ r2, rest ≠ 0x3F :: r2 := fun r2 e => hq ⟨r2, e⟩
+          rw [capOpens_cap hne]
+          have hstep : ∀ g, g ≤ Gen.MAX_CAPTURE_GROUPS →
+              (if g + 1 > Gen.MAX_CAPTURE_GROUPS then Gen.MAX_CAPTURE_GROUPS else g + 1) ≤ Gen.MAX_CAPTURE_GROUPS ∧
+              min ((if g + 1 > Gen.MAX_CAPTURE_GROUPS then Gen.MAX_CAPTURE_GROUPS else g + 1) + capOpens rest)
+                Gen.MAX_CAPTURE_GROUPS = min (g + (capOpens rest + 1)) Gen.MAX_CAPTURE_GROUPS := by
+            intro g hg; split <;> omega
+          obtain ⟨hs1, hs2⟩ := hstep sc.gmax hgm
           rcases rest with _ | ⟨y, r2⟩
           · simp only
-            exact ih [] _ hfr' (by simp; omega) hl
+            obtain ⟨sc', h1, h2, h3, h4⟩ := ih []
+              { sc with gmax := if sc.gmax + 1 > Gen.MAX_CAPTURE_GROUPS then Gen.MAX_CAPTURE_GROUPS
+                                else sc.gmax + 1,
+                        parenDepth := sc.parenDepth + 1,
+                        altIdx := altInsert sc.altIdx (sc.parenDepth + 1) 0,
+                        groupIds := altInsert sc.groupIds (sc.parenDepth + 1) sc.nextGroupId,
+                        nextGroupId := sc.nextGroupId + 1 } hfr' (by simp; omega) hl hs1
+            exact ⟨sc', h1, h2, h3, by rw [h4]; exact hs2⟩
           · have hy : y ≠ 0x3F := fun e => hne r2 (by rw [e])
             simp only [hy]
-            exact ih (y :: r2) _ hfr' (by omega) hl
+            obtain ⟨sc', h1, h2, h3, h4⟩ := ih (y :: r2)
+              { sc with gmax := if sc.gmax + 1 > Gen.MAX_CAPTURE_GROUPS then Gen.MAX_CAPTURE_GROUPS
+                                else sc.gmax + 1,
+                        parenDepth := sc.parenDepth + 1,
+                        altIdx := altInsert sc.altIdx (sc.parenDepth + 1) 0,
+                        groupIds := altInsert sc.groupIds (sc.parenDepth + 1) sc.nextGroupId,
+                        nextGroupId := sc.nextGroupId + 1 } hfr' (by omega) hl hs1
+            exact ⟨sc', h1, h2, h3, by rw [h4]; exact hs2⟩
       · have e3 : (c == 0x28) = false := by simp [hp]
         simp only [e3, Bool.false_eq_true, if_false]
+        rw [capOpens_plain _ hp hc1 hc2]
         split
         · split
-          · exact ih rest _ hfr' (by omega) hl
-          · exact ih rest sc hfr' (by omega) hl
+          · exact ih rest _ hfr' (by omega) hl hgm
+          · exact ih rest sc hfr' (by omega) hl hgm
         · split
-          · exact ih rest _ hfr' (by omega) hl
-          · exact ih rest sc hfr' (by omega) hl
+          · exact ih rest _ hfr' (by omega) hl hgm
+          · exact ih rest sc hfr' (by omega) hl hgm
 
-/-- On the fragment the pre-scan succeeds and changes only `groupCountMax`. -/
-theorem parseCaptureGroups_frag (e : Bool) (st : PState) (h : fragCore e st.input = true) :
-    ∃ g, parseCaptureGroups st = .ok { st with groupCountMax := g } := by
-  obtain ⟨sc', h1, h2, h3⟩ := scanLoop_frag e st.flags (st.input.length + 1) st.input
-    { named := st.named, gmax := st.groupCountMax } h (by omega) rfl
+/-- On the fragment the pre-scan succeeds and sets `groupCountMax` to the lexical group count. -/
+theorem parseCaptureGroups_frag (e k : Bool) (st : PState) (h : fragCore e k st.input = true)
+    (hkv : k = true → st.flags.unicodeSets = false) (h0 : st.groupCountMax = 0) :
+    parseCaptureGroups st =
+      .ok { st with groupCountMax := min (capOpens st.input) Gen.MAX_CAPTURE_GROUPS } := by
+  obtain ⟨sc', h1, h2, h3, h4⟩ := scanLoop_frag e k st.flags hkv (st.input.length + 1) st.input
+    { named := st.named, gmax := st.groupCountMax } h (by omega) rfl (by rw [h0]; simp)
   unfold parseCaptureGroups
   rw [h1]
   simp only [h2, List.any_nil, Bool.false_eq_true, if_false]
-  exact ⟨sc'.gmax, by rw [h3]⟩
+  rw [h3, h4, h0, Nat.zero_add]
 
 /-! ## `try_parse` -/
 
@@ -144,43 +222,171 @@ def effFlags (fl : Flags) : Flags := if fl.unicodeSets then { fl with unicode :=
 
 /-- `parse` answers `Ok` exactly when the descent (from the state the pre-scan leaves) consumes the
 whole pattern. -/
-theorem parse_isOk_iff (e : Bool) (pat : List Nat) (fl : Flags) (hb : Bnd pat) (hfr : fragCore e pat = true) :
-    ∃ g, (parse pat fl).isOk = true ↔
+theorem parse_isOk_iff (e k : Bool) (pat : List Nat) (fl : Flags) (hb : Bnd pat) (hfr : fragCore e k pat = true)
+    (hkv : k = true → fl.unicodeSets = false) :
+    (parse pat fl).isOk = true ↔
       ∃ nd st1, consumeDisjunction (parseFuel pat)
-        { input := pat, flags := effFlags fl, groupCountMax := g } = .ok (nd, st1) ∧ st1.input = [] := by
-  obtain ⟨g, hg⟩ := parseCaptureGroups_frag e { input := pat, flags := effFlags fl } hfr
-  refine ⟨g, ?_⟩
-  have e : parse pat fl = parseBody { input := pat, flags := effFlags fl, groupCountMax := g } := by
+        { input := pat, flags := effFlags fl,
+          groupCountMax := min (capOpens pat) Gen.MAX_CAPTURE_GROUPS } = .ok (nd, st1) ∧ st1.input = [] := by
+  have hkv' : k = true → (effFlags fl).unicodeSets = false := fun h => by
+    unfold effFlags; rw [hkv h]; exact hkv h
+  have hg := parseCaptureGroups_frag e k { input := pat, flags := effFlags fl } hfr hkv' rfl
+  have hpe : parse pat fl = parseBody
+      { input := pat, flags := effFlags fl, groupCountMax := min (capOpens pat) Gen.MAX_CAPTURE_GROUPS } := by
     unfold parse tryParse
     simp only
     unfold effFlags at hg
     rw [hg]
     rfl
-  rw [e]
+  rw [hpe]
   exact parseBody_isOk _ ⟨by intro e he; simp at he, by simp [Gen.MAX_NESTING_DEPTH],
     by simp [Gen.MAX_CAPTURE_GROUPS], by simp [Gen.MAX_LOOPS], hb⟩
 
 /-! ## `parsePattern`, and the two joined -/
 
+/-- Outside UnicodeMode the grammar never records a decimal escape. -/
+def Mono0 (c : Cfg) (n : Nat) : Prop :=
+  (∀ s st r st', disj c n s st = .ok (r, st') → st'.maxDec = st.maxDec) ∧
+  (∀ s st r st', alt c n s st = .ok (r, st') → st'.maxDec = st.maxDec) ∧
+  (∀ s st r st', body c n s st = .ok (r, st') → st'.maxDec = st.maxDec) ∧
+  (∀ s st r st', term c n s st = .ok (r, st') → st'.maxDec = st.maxDec) ∧
+  (∀ s st r st', quantified c n s st = .ok (r, st') → st'.maxDec = st.maxDec) ∧
+  (∀ s st r st', atom c n s st = .ok (r, st') → st'.maxDec = st.maxDec)
+
+theorem atomEscape_mono0 (c : Cfg) (hc : c.u = false) (s : List Nat) (st : ESG.St) (r : List Nat) (st' : ESG.St)
+    (h : atomEscape c s st = .ok (r, st')) : st'.maxDec = st.maxDec := by
+  unfold atomEscape namedRef at h
+  repeat' split at h
+  all_goals grind
+
+theorem mono0 (c : Cfg) (hc : c.u = false) (n : Nat) : Mono0 c n := by
+  induction n with
+  | zero =>
+    refine ⟨?_, ?_, ?_, ?_, ?_, ?_⟩ <;> intro s st r st' h
+    · simp [disj] at h
+    · simp [alt] at h
+    · simp [body] at h
+    · simp [term] at h
+    · simp [quantified] at h
+    · simp [atom] at h
+  | succ n ih =>
+    obtain ⟨ihD, ihA, ihB, ihT, ihQ, ihM⟩ := ih
+    refine ⟨?_, ?_, ?_, ?_, ?_, ?_⟩
+    · intro s st r st' h
+      unfold disj at h
+      repeat' split at h
+      all_goals grind
+    · intro s st r st' h
+      unfold alt at h
+      repeat' split at h
+      all_goals grind
+    · intro s st r st' h
+      unfold body at h
+      repeat' split at h
+      all_goals grind
+    · intro s st r st' h
+      unfold term at h
+      repeat' split at h
+      all_goals grind
+    · intro s st r st' h
+      unfold quantified at h
+      repeat' split at h
+      all_goals grind
+    · intro s st r st' h
+      unfold atom at h
+      repeat' split at h
+      all_goals grind [→ atomEscape_mono0, addName]
+
+theorem capGo_le_opens : ∀ (n : Nat) (m : Bool) (l : List Nat), l.length ≤ n → capGo m l ≤ opens l := by
+  intro n
+  induction n with
+  | zero => intro m l hl; cases l with | nil => rw [capGo_nil]; omega | cons _ _ => simp at hl
+  | succ n ih =>
+    intro m l hl
+    rcases l with _ | ⟨c, r⟩
+    · rw [capGo_nil]; omega
+    · simp only [List.length_cons] at hl
+      have hop : opens r ≤ opens (c :: r) := by simp only [opens]; split <;> omega
+      by_cases hc : c = 0x5C
+      · subst hc
+        rcases r with _ | ⟨x, r'⟩
+        · cases m <;> (rw [capGo] <;> simp [capGo_nil])
+        · rw [capGo_esc]
+          simp only [List.length_cons] at hl
+          have := ih m r' (by omega)
+          have : opens r' ≤ opens (x :: r') := by simp only [opens]; split <;> omega
+          omega
+      · cases m with
+        | true =>
+          by_cases hd : c = 0x5D
+          · subst hd
+            rw [capGo_close]
+            have := ih false r (by omega); omega
+          · rw [capGo_in r hc hd]
+            have := ih true r (by omega); omega
+        | false =>
+          by_cases hb : c = 0x5B
+          · subst hb
+            rw [capGo_open]
+            have := ih true r (by omega); omega
+          · by_cases hp : c = 0x28
+            · subst hp
+              by_cases hq : ∃ r', r = 0x3F :: r'
+              · obtain ⟨r', rfl⟩ := hq
+                have e1 := capOpens_q r'
+                unfold capOpens at e1
+                rw [e1]
+                simp only [List.length_cons] at hl
+                have := ih false r' (by omega)
+                simp [opens]; omega
+              · have e1 := capOpens_cap (fun r' e => hq ⟨r', e⟩)
+                unfold capOpens at e1
+                rw [e1]
+                have := ih false r (by omega)
+                simp [opens]; omega
+            · have e1 := capOpens_plain r hp hc hb
+              unfold capOpens at e1
+              rw [e1]
+              have := ih false r (by omega); omega
+
+theorem capOpens_le_opens (l : List Nat) : capOpens l ≤ opens l := capGo_le_opens _ false l (Nat.le_refl _)
+
 /-- The descent from the state the pre-scan leaves, against `parsePattern`. -/
-theorem frag_core (e : Bool) (c : Cfg) (pat : List Nat) (fl' : Flags) (g : Nat) (hu : c.u = fl'.unicode)
-    (heu : e = true → fl'.unicode = true) (hch : e = true → ∀ c ∈ pat, Parse.isChar c = true)
-    (hfr : fragCore e pat = true) (hlim : withinLimits pat = true) :
+theorem frag_core (e k : Bool) (c : Cfg) (pat : List Nat) (fl' : Flags) (hu : c.u = fl'.unicode)
+    (heu : e = true → fl'.unicode = true)
+    (hkk : k = true → e = true ∧ fl'.unicode = true ∧ c.v = false ∧ fl'.unicodeSets = false)
+    (hch : e = true → ∀ c ∈ pat, Parse.isChar c = true)
+    (hfr : fragCore e k pat = true) (hlim : withinLimits pat = true) :
     ((∃ nd st1, consumeDisjunction (parseFuel pat)
-        { input := pat, flags := fl', groupCountMax := g } = .ok (nd, st1) ∧ st1.input = []) ↔
+        { input := pat, flags := fl', groupCountMax := min (capOpens pat) Gen.MAX_CAPTURE_GROUPS } =
+          .ok (nd, st1) ∧ st1.input = []) ↔
       ∃ st, parsePattern c pat = .ok st) ∧
     (∀ st, parsePattern c pat = .ok st → st.names = []) ∧ parsePattern c pat ≠ .fuel := by
   simp only [withinLimits, Bool.and_eq_true, decide_eq_true_eq] at hlim
   obtain ⟨⟨hl1, hl2⟩, hl3⟩ := hlim
-  have hD := (sim_all (c := c) (e := e) (u := fl'.unicode) hu heu (8 * (pat.length + 2))).1
-  have hi : PInv e fl'.unicode
-      { ({ input := pat, flags := fl', groupCountMax := g } : PState) with depth := 0 + 1 } :=
-    ⟨rfl, hfr, hch, by simp only; omega, by simp only; omega, by simp only; omega⟩
-  have hD' := hD pat {} (by omega) ⟨rfl, rfl, rfl⟩ (4 * pat.length + 7)
-    { ({ input := pat, flags := fl', groupCountMax := g } : PState) with depth := 0 + 1 } []
-    (by omega) rfl hi
+  have hK : capOpens pat ≤ 65535 := Nat.le_trans (capOpens_le_opens pat) hl2
+  have hmin : min (capOpens pat) Gen.MAX_CAPTURE_GROUPS = capOpens pat := by
+    simp only [Gen.MAX_CAPTURE_GROUPS]; omega
+  rw [hmin]
+  -- the run of the crate (pre-scan count `K`), and a hypothetical run that accepts every decimal escape
+  have hrun : ∀ G : Nat, Out G (disj c (8 * (pat.length + 2)) pat {})
+      (fun r est' => ∃ ts st', disjLoop (4 * pat.length + 7)
+          { input := pat, flags := fl', groupCountMax := G, depth := 0 + 1 } [] = .ok (ts, st') ∧
+        CR e k fl'.unicode G (capOpens pat)
+          { input := pat, flags := fl', groupCountMax := G, depth := 0 + 1 } r st' ∧
+        est'.groups = st'.groupCount)
+      (IsSyn (disjLoop (4 * pat.length + 7)
+          { input := pat, flags := fl', groupCountMax := G, depth := 0 + 1 } [])) := by
+    intro G
+    have hD := (sim_all (c := c) (e := e) (k := k) (u := fl'.unicode) G (capOpens pat) hu heu
+      (fun h => ⟨(hkk h).1, (hkk h).2.1, (hkk h).2.2.1⟩) (8 * (pat.length + 2))).1
+    exact hD pat {} (by omega) ⟨by simp, rfl, rfl⟩ (4 * pat.length + 7)
+      { input := pat, flags := fl', groupCountMax := G, depth := 0 + 1 } [] (by omega) rfl
+      ⟨rfl, fun h => (hkk h).2.2.2, hfr, hch, by simp only; omega, by simp only; omega, by simp only; omega, rfl,
+        by simp⟩ rfl
+  have hD' := hrun (capOpens pat)
   have hpf : parseFuel pat = (4 * pat.length + 7) + 1 := by unfold parseFuel; omega
-  have hdep : ({ input := pat, flags := fl', groupCountMax := g } : PState).depth + 1 ≤
+  have hdep : ({ input := pat, flags := fl', groupCountMax := capOpens pat } : PState).depth + 1 ≤
       Gen.MAX_NESTING_DEPTH := by simp [Gen.MAX_NESTING_DEPTH]
   rw [hpf]
   unfold parsePattern
@@ -194,25 +400,67 @@ theorem frag_core (e : Bool) (c : Cfg) (pat : List Nat) (fl' : Flags) (g : Nat) 
   | ok p =>
     obtain ⟨r, est'⟩ := p
     rw [hd] at hD'
-    obtain ⟨he', ts, st', hl, hr, _, _⟩ := hD'
-    rw [cd_ok hdep hl]
-    rcases r with _ | ⟨y, r'⟩
-    · have hchk : ((!c.u || decide (est'.maxDec ≤ est'.groups)) &&
-          (!c.n || est'.refs.all fun nm => est'.names.contains nm)) = true := by
-        rw [he'.maxDec, he'.refs]; simp
-      simp only [hchk, if_true]
-      refine ⟨⟨fun _ => ⟨est', rfl⟩, fun _ => ⟨_, _, rfl, hr⟩⟩, ?_, by simp⟩
-      intro st hst
-      cases hst
-      exact he'.names
-    · simp only
-      refine ⟨⟨?_, ?_⟩, ?_, by simp⟩
-      · rintro ⟨nd, st1, he, h1⟩
-        cases he
-        simp only at h1
-        rw [hr] at h1; cases h1
-      · rintro ⟨st, hst⟩; cases hst
-      · intro st hst; cases hst
+    rcases hD' with ⟨he', ts, st', hl, ⟨hr, _, hi'⟩, hg'⟩ | ⟨hp, msg, hm⟩
+    · rw [cd_ok hdep hl]
+      rcases r with _ | ⟨y, r'⟩
+      · have hcap := hi'.cap
+        rw [hr] at hcap
+        rw [capOpens_nil, Nat.add_zero] at hcap
+        have hmd := he'.maxDec
+        have hchk : ((!c.u || decide (est'.maxDec ≤ est'.groups)) &&
+            (!c.n || est'.refs.all fun nm => est'.names.contains nm)) = true := by
+          rw [he'.refs]
+          have : est'.maxDec ≤ est'.groups := by
+            rw [hg', hcap]; unfold USIZE_MAX at hmd; omega
+          simp [this]
+        simp only [hchk, if_true]
+        refine ⟨⟨fun _ => ⟨est', rfl⟩, fun _ => ⟨_, _, rfl, hr⟩⟩, ?_, by simp⟩
+        intro st hst
+        cases hst
+        exact he'.names
+      · simp only
+        refine ⟨⟨?_, ?_⟩, ?_, by simp⟩
+        · rintro ⟨nd, st1, he, h1⟩
+          cases he
+          simp only at h1
+          rw [hr] at h1; cases h1
+        · rintro ⟨st, hst⟩; cases hst
+        · intro st hst; cases hst
+    · -- a decimal escape beyond the group count: the crate has failed; so does the final check
+      rw [cd_err hdep hm]
+      rcases r with _ | ⟨y, r'⟩
+      · have hD2 := hrun USIZE_MAX
+        rw [hd] at hD2
+        have hgr : est'.groups = capOpens pat := by
+          rcases hD2 with ⟨_, ts, st', _, ⟨hr, _, hi'⟩, hg'⟩ | ⟨hp2, _⟩
+          · have hcap := hi'.cap
+            rw [hr] at hcap
+            rw [capOpens_nil, Nat.add_zero] at hcap
+            rw [hg', hcap]
+          · unfold Poisoned at hp2; omega
+        have hcu : c.u = true := by
+          cases hcu : c.u with
+          | true => rfl
+          | false =>
+            have := (mono0 c hcu (8 * (pat.length + 2))).1 pat {} [] est' hd
+            unfold Poisoned at hp
+            rw [this] at hp
+            simp at hp
+        have hchk : ((!c.u || decide (est'.maxDec ≤ est'.groups)) &&
+            (!c.n || est'.refs.all fun nm => est'.names.contains nm)) = false := by
+          have : ¬ est'.maxDec ≤ est'.groups := by
+            unfold Poisoned at hp; rw [hgr]; omega
+          simp [hcu, this]
+        simp only [hchk, Bool.false_eq_true, if_false]
+        refine ⟨⟨?_, ?_⟩, ?_, by simp⟩
+        · rintro ⟨nd, st1, he, _⟩; cases he
+        · rintro ⟨st, hst⟩; cases hst
+        · intro st hst; cases hst
+      · simp only
+        refine ⟨⟨?_, ?_⟩, ?_, by simp⟩
+        · rintro ⟨nd, st1, he, _⟩; cases he
+        · rintro ⟨st, hst⟩; cases hst
+        · intro st hst; cases hst
 
 /-! ## Flags and pre-processing -/
 
